@@ -261,4 +261,24 @@ theorem lex_source (ls : List LineSpec) (hne : ls ≠ []) (h : ∀ l ∈ ls, l.O
   simp only [Bool.false_eq_true, if_false]
   exact lexLines_source ls 1 0 h
 
+/-! ### layout does not matter -/
+
+theorem expected_toks (ln : Nat) : ∀ (items : List Item) (col off : Nat),
+    (expected ln col off items).map (·.tok) = items.map (·.tok)
+  | [], _, _ => rfl
+  | it :: rest, col, off => by simp [expected, expected_toks ln rest]
+
+theorem expectedLines_toks : ∀ (ls : List LineSpec) (ln off : Nat),
+    (expectedLines ln off ls).map (·.tok) = (ls.map (fun l => l.items.map (·.tok))).flatten
+  | [], _, _ => rfl
+  | l :: ls, ln, off => by
+    simp [expectedLines, expected_toks, expectedLines_toks ls]
+
+/-- **formatting never changes the tokens**: two sources that spell the same tokens — whatever their indentation, blanks,
+    comments, line breaks (LF or CRLF) and the distribution of the tokens over lines — lex to the same token sequence -/
+theorem layout_irrelevant (ls ls' : List LineSpec) (hne : ls ≠ []) (hne' : ls' ≠ []) (h : ∀ l ∈ ls, l.OK) (h' : ∀ l ∈ ls', l.OK)
+    (hsame : (ls.map (fun l => l.items.map (·.tok))).flatten = (ls'.map (fun l => l.items.map (·.tok))).flatten) :
+    (lex (sourceOf ls)).map (·.tok) = (lex (sourceOf ls')).map (·.tok) := by
+  rw [lex_source ls hne h, lex_source ls' hne' h', expectedLines_toks, expectedLines_toks, hsame]
+
 end Lex
